@@ -52,7 +52,7 @@ def set_determinants(propka_groups: List[Group], version: Version, options=None)
                 break
             # do not calculate interactions for coupled groups
             if group2 in group1.covalently_coupled_groups:
-                break
+                continue
             distance = propka.calculations.distance(group1, group2)
             if distance < version.parameters.coulomb_cutoff2:
                 interaction_type = (
